@@ -13,7 +13,7 @@ Intermediate tree (nested tuples):
     ('empty',) ('fail',) ('lit', c) ('notLit', c) ('any',)
     ('cls', neg, [item...])   item = ('chr', c) | ('range', lo, hi) | ('cat', name)
     ('seq', a, b) ('alt', a, b) ('rep', greedy, min, max|None, r) ('group', idx, r)
-    ('scoped', flagdict, r) ('anchor', name) ('backref', idx) ('look', neg, r)
+    ('withFlags', flagdict, r) ('anchor', name) ('backref', idx) ('look', neg, r)
 """
 import re
 import re._constants as C
@@ -109,7 +109,7 @@ def _node(op, av, flags):
         inner_flags = _combine_flags(flags, add_flags, del_flags)
         r = _walk(p, inner_flags)
         if (inner_flags ^ flags) & (_MATCH_FLAGS | C.SRE_FLAG_LOCALE):
-            r = ('scoped', _flagdict(inner_flags), r)
+            r = ('withFlags', _flagdict(inner_flags), r)
         if group is not None:
             r = ('group', group, r)
         return r
@@ -184,8 +184,8 @@ def _lean(t):
         return '(.rep %s %d %s %s)' % (_lean_bool(t[1]), t[2], mx, _lean(t[4]))
     if k == 'group':
         return '(.group %d %s)' % (t[1], _lean(t[2]))
-    if k == 'scoped':
-        return '(.scoped %s %s)' % (_lean_flags(t[1]), _lean(t[2]))
+    if k == 'withFlags':
+        return '(.withFlags %s %s)' % (_lean_flags(t[1]), _lean(t[2]))
     if k == 'anchor':
         return '(.anchor .%s)' % t[1]
     if k == 'look':
@@ -232,8 +232,8 @@ def _json(t):
         return ['rep', t[1], t[2], t[3], _json(t[4])]
     if k in ('group',):
         return ['group', t[1], _json(t[2])]
-    if k == 'scoped':
-        return ['scoped', t[1], _json(t[2])]
+    if k == 'withFlags':
+        return ['withFlags', t[1], _json(t[2])]
     if k == 'look':
         return ['look', t[1], _json(t[2])]
     return list(t)
